@@ -124,3 +124,60 @@ ax("in-class-def", L.FA(_q, in_class(_q) == (L.len_(_parts(_q)) > 1), [in_class(
 ax("class-path-def", L.FA(_q, class_path(_q) == L.box_str(str_join(z3.StringVal("."), L.seq_slice(_parts(_q), z3.IntVal(0), L.len_(_parts(_q)) - 1))), [class_path(_q)]))
 ax("split-nonempty", L.FA([_q, _a1], L.len_(PATH.str_split(_q, _a1)) >= 1, [PATH.str_split(_q, _a1)]))
 ax("split-strs", L.FA([_q, _a1, L.const("i", L.I)], L.is_str(L.nth(PATH.str_split(_q, _a1), L.const("i", L.I))), [L.nth(PATH.str_split(_q, _a1), L.const("i", L.I))]))
+
+# ---- sorted(...) with a key / reverse: an unspecified permutation of the argument (order abstracted: stated assumption, enough for membership reasoning)
+sorted_ = L.fn("sorted_", L.V, L.V, L.B, L.V)
+_sq, _kf, _x = L.const("st_sq"), L.const("st_kf"), L.const("st_x")
+ax("sorted-len", L.FA([_sq, _kf, _b], L.len_(sorted_(_sq, _kf, _b)) == L.len_(_sq), [sorted_(_sq, _kf, _b)]))
+ax("sorted-has", L.FA([_sq, _kf, _b, _x], L.has(sorted_(_sq, _kf, _b), _x) == L.has(_sq, _x), [L.has(sorted_(_sq, _kf, _b), _x)]))
+
+
+def _sorted(ip, a, kw, node):
+    import ast as _ast
+    if len(a) != 1 or set(kw) - {"key", "reverse"}:
+        raise Unsupported("sorted(...) form")
+    key = kw.get("key")
+    if key is None:
+        katom = L.atom("keyfn", "identity")
+    elif isinstance(key, GlobalRef):
+        katom = L.atom("keyfn", key.path)
+    elif isinstance(key, Closure):
+        katom = L.atom("keyfn", _ast.dump(key.node))
+    else:
+        raise Unsupported("sorted key %r" % (key,))
+    rev = kw.get("reverse", PyC(False))
+    sv = ip.seq_of(a[0])
+    return ZV(sorted_(sv.term, katom, as_bool(rev)), sv.tag if (sv.tag or "").startswith("Seq[") else "seq")
+
+
+R.EXTERNALS["builtins.sorted"] = R.ExtFn(_sorted)
+
+# ---- re.sub / re.escape: uninterpreted text functions; the prefix stripping of FunctionStub.render as a fold over the module list
+re_sub = L.fn("re_sub", L.S, L.S, L.S, L.S)
+re_escape = L.fn("re_escape", L.S, L.S)
+R.EXTERNALS["re.sub"] = R.ExtFn(lambda ip, a, kw, node: ZS(re_sub(as_str(a[0]), as_str(a[1]), as_str(a[2]))))
+R.EXTERNALS["re.escape"] = R.ExtFn(lambda ip, a, kw, node: ZS(re_escape(as_str(a[0]))))
+stripn = L.fn("stripn", L.S, L.V, L.I, L.S)
+_s0, _ii = L.const("st_s0", L.S), L.const("i", L.I)
+_PAT = lambda mod: z3.Concat(z3.StringVal(r"(?<![\w.])"), re_escape(L.unbox_str(mod)), z3.StringVal(r"\."))
+ax("stripn-0", L.FA([_s0, _sq], stripn(_s0, _sq, 0) == _s0, [stripn(_s0, _sq, 0)]))
+ax("stripn-step", L.FA([_s0, _sq, _ii], z3.Implies(_ii >= 0, stripn(_s0, _sq, _ii + 1) == re_sub(_PAT(L.nth(_sq, _ii)), z3.StringVal(""), stripn(_s0, _sq, _ii))),
+                       [(stripn(_s0, _sq, _ii), L.nth(_sq, _ii))]))
+
+
+@spec("stripn_")
+def _stripn_spec(ip, a, kw):
+    return ZS(stripn(as_str(a[0]), as_v(a[1]), as_int(a[2])))
+
+
+@spec("sorted_by_len_desc_")
+def _sorted_spec(ip, a, kw):
+    return ZV(sorted_(as_v(a[0]), L.atom("keyfn", "builtins.len"), z3.BoolVal(True)), "Seq[str]")
+
+for _n in ("classmethod", "staticmethod"):
+    declare_pred("is_" + _n, L.V, L.B)
+
+
+@spec("contains_dot")
+def _contains_dot(ip, a, kw):
+    return ZB(z3.Contains(as_str(a[0]), z3.StringVal(".")))
